@@ -92,3 +92,24 @@ pub fn value_tokens(v: &Value) -> String {
     enc_value(v, &mut o);
     o.join(" ")
 }
+
+/// Like `enc_view` but object entries sorted by key (canonical form for observations where the
+/// iteration order of a HashMap is not the point).
+pub fn enc_view_sorted(v: &dyn ValueView, out: &mut Vec<String>) {
+    if let Some(a) = v.as_array() {
+        out.push(format!("A{}", a.size()));
+        for e in a.values() {
+            enc_view_sorted(e, out);
+        }
+    } else if let Some(o) = v.as_object() {
+        out.push(format!("O{}", o.size()));
+        let mut es: Vec<_> = o.iter().collect();
+        es.sort_by(|a, b| a.0.as_str().cmp(b.0.as_str()));
+        for (k, e) in es {
+            out.push(format!("k{}", hex(k.as_str())));
+            enc_view_sorted(e, out);
+        }
+    } else {
+        enc_view(v, out)
+    }
+}
